@@ -196,13 +196,74 @@ def run(ctx):
     # R16.5 snapshots are copies ----------------------------------------------------------------------------------------
     ctx.rule("R16.5", "values handed to scripts are copies: StateVal copies the attribute mapping, getattr/delete copy before changing", floor=4)
     new = program.func("state.py::StateVal.__new__")
-    ctx.check(any(isinstance(n, ast.Assign) and norm(n.targets[0]) == "new_var.__dict__" and norm(n.value) == "state.attributes.copy()" for n in body_walk(new)),
-              "R16.5", "state.py::StateVal.__new__", "snapshot owns a copy of the attributes", msg="StateVal no longer copies state.attributes: a captured snapshot would change afterwards",
+    from ..flow import FlowPolicy as _FP0, exits as _exits0, run_flow as _run0
+    class _NewPolicy(_FP0):
+        def call(self, interp, node, fname, fval, args, kwargs, cfg, out):
+            if isinstance(node.func, ast.Attribute) and node.func.attr == "__new__":
+                return [(cfg, ObjV("snapshot", "StateVal"))]
+            return super().call(interp, node, fname, fval, args, kwargs, cfg, out)
+
+    pol0 = _NewPolicy(program, may_raise_all=False, cancel=False)
+    pol0.track_aliases = True
+    attrs0 = DictV([(Const("a"), Const(1))])
+    out0 = _run0(program, "state.py::StateVal.__new__", pol0, args={"cls": ClassV("StateVal"), "state": ObjV("ha_state", "State")},
+                 heap={"ha_state.attributes": attrs0, "ha_state.state": Const("on"), "ha_state.entity_id": Const("d.e"), "ha_state.last_updated": Const(1), "ha_state.last_changed": Const(1),
+                       "ha_state.last_reported": Const(1)})
+    bad0 = None
+    ex0 = _exits0(out0)
+    for k, c, d in ex0:
+        own = c.heap.get("snapshot.__dict__")
+        if k != "return" or not isinstance(own, DictV):
+            bad0 = f"the snapshot's attribute mapping is {own!r} ({d})"
+        elif own.origin is not None:
+            bad0 = f"the snapshot shares Home Assistant's attribute mapping ({own.origin}): a captured value changes when the entity changes, and setting snapshot fields edits the state machine's object"
+        elif own.get(Const("a")) != Const(1) or c.heap.get("ha_state.attributes") != attrs0:
+            bad0 = f"attributes copied wrongly: {own!r} / source now {c.heap.get('ha_state.attributes')!r}"
+    ctx.check(bool(ex0) and bad0 is None, "R16.5", "state.py::StateVal.__new__", "snapshot owns a copy of the attributes", msg=f"StateVal(state): {bad0 or 'no exit'}",
               key="StateVal copies attributes", node=new, rel="state.py")
-    for uid, needle in (("state.py::State.getattr", "var_name.__dict__.copy()"), ("state.py::State.getattr", "value.attributes.copy()"),
-                        ("state.py::State.delete", "value.attributes.copy()")):
-        f = program.func(uid)
-        ctx.check(needle in norm(f), "R16.5", uid, f"`{needle}`", msg=f"{uid} no longer copies (`{needle}`) before returning/changing the mapping", key=f"copy {needle}", node=f, rel="state.py")
+    # what scripts get back never aliases the snapshot / Home Assistant's mapping, and taking it does not change them (alias analysis on scenarios)
+    from ..flow import FlowPolicy as _FP, exits as _exits, run_flow as _run
+    virt = const_set(program.module_const("state.py", "STATE_VIRTUAL_ATTRS")) or set()
+    snap_items = [(Const("a"), Const(1)), (Const("b"), Const(2))] + [(Const(v), Const("virt")) for v in sorted(virt)]
+    ha_attrs = DictV([(Const("a"), Const(1)), (Const("b"), Const(2))])
+    pol = _FP(program, may_raise_all=False, cancel=False, globals_={"STATE_VIRTUAL_ATTRS": ListV(tuple(Const(v) for v in sorted(virt)), "set"), "StateVal": ClassV("StateVal")},
+              summaries={"cls.hass.states.get": lambda i, n, a, k, c, o: [(c, ObjV("ha_state", "State"))]})
+    pol.track_aliases = True
+    pol.loop_unroll = 8
+    for label, arg, src_slot, src_val in (("a captured snapshot", ObjV("snap", "StateVal"), "snap.__dict__", DictV(snap_items)), ("an entity name", Const("d.e"), "ha_state.attributes", ha_attrs)):
+        heap = {"snap.__dict__": DictV(snap_items), "ha_state.attributes": ha_attrs, "ha_state.state": Const("on")}
+        out = _run(program, "state.py::State.getattr", pol, args={"cls": ClassV("State"), "var_name": arg}, heap=heap)
+        bad = None
+        ex = _exits(out)
+        for k, c, d in ex:
+            r = c.env.get("$ret")
+            if k != "return" or not isinstance(r, DictV):
+                bad = f"returns {r!r} ({d})"
+            elif {kk.v: vv for kk, vv in r.items} != {"a": Const(1), "b": Const(2)}:
+                bad = f"returns {r!r}, specified the attributes {{'a': 1, 'b': 2}} without the virtual fields {sorted(virt)}"
+            elif r.origin is not None:
+                bad = f"the returned dictionary is the live mapping of {label} ({r.origin}): editing it edits the snapshot / Home Assistant's state"
+            elif c.heap.get(src_slot) != src_val:
+                bad = f"taking the attributes changes {label} itself: {c.heap.get(src_slot)!r}"
+        ctx.check(bool(ex) and bad is None, "R16.5", "state.py::State.getattr", f"state.getattr of {label} returns an independent copy",
+                  msg=f"state.getattr({label}): {bad or 'no exit'}", key=f"getattr copy {label}", node=program.func("state.py::State.getattr"), rel="state.py")
+    # deleting an attribute builds the new mapping from a copy
+    sets = []
+    pol2 = _FP(program, may_raise_all=False, cancel=False, summaries={"cls.hass.states.get": lambda i, n, a, k, c, o: [(c, ObjV("ha_state", "State"))],
+                                                                      "cls.set": lambda i, n, a, k, c, o: (sets.append((tuple(a), dict(k))), [(c, Const(None))])[1],
+                                                                      "asyncio.current_task": lambda i, n, a, k, c, o: [(c, Const("T"))]})
+    pol2.track_aliases = True
+    heap = {"ha_state.attributes": ha_attrs, "ha_state.state": Const("on"), "Function.task2context": DictV([])}
+    out = _run(program, "state.py::State.delete", pol2, args={"cls": ClassV("State"), "var_name": Const("d.e.a"), "context": Const(None)}, heap=heap)
+    bad = None
+    for k, c, d in _exits(out):
+        if c.heap.get("ha_state.attributes") != ha_attrs:
+            bad = f"Home Assistant's attribute mapping is edited in place: {c.heap.get('ha_state.attributes')!r}"
+    na = sets[0][1].get("new_attributes") if len(sets) == 1 else None
+    if bad is None and (len(sets) != 1 or not isinstance(na, DictV) or {kk.v: vv for kk, vv in na.items} != {"b": Const(2)}):
+        bad = f"State.set is called {len(sets)} time(s) with new_attributes={na!r}, specified one call with {{'b': 2}}"
+    ctx.check(bad is None, "R16.5", "state.py::State.delete", "deleting an attribute writes a new mapping without touching Home Assistant's", msg=f"del d.e.a: {bad}",
+              key="delete attribute copies", node=program.func("state.py::State.delete"), rel="state.py")
 
     # R16.6 attribute names cannot collide with State.set's parameters -------------------------------------------------
     ctx.rule("R16.6", "attribute writes do not pass the attribute name as a keyword of State.set (names like value/new_attributes/context would be misrouted)", floor=1)
